@@ -63,11 +63,17 @@ func PrepareSchedReplay(l *Loaded, spec *ReplaySpec, dir string, r *RunResult, v
 	if spec.ExtraOverlay == nil {
 		spec.ExtraOverlay = map[string]string{}
 	}
+	seen := false
 	for _, d := range instrDirs {
-		if err := instrumentPackage(l, spec.RepoDir, d, filepath.Join(dir, "instr"), spec.ExtraOverlay); err != nil {
+		var hf map[string][]byte
+		if d == spec.PkgDir {
+			hf, seen = spec.HarnessFiles, true
+		}
+		if err := instrumentPackage(l, spec.RepoDir, d, filepath.Join(dir, "instr"), spec.ExtraOverlay, hf); err != nil {
 			return err
 		}
 	}
+	_ = seen
 	vs, err := os.ReadFile(filepath.Join(spec.RTDir, "vsched.go.txt"))
 	if err != nil {
 		return err
@@ -89,7 +95,7 @@ type edit struct {
 }
 
 var syncMethods = map[string]bool{
-	"(*sync.Mutex).Lock": true, "(*sync.RWMutex).Lock": true, "(*sync.RWMutex).RLock": true, "(*sync.WaitGroup).Wait": true,
+	"(*sync.Mutex).Lock": true, "(*sync.RWMutex).Lock": true, "(*sync.RWMutex).RLock": true, "(*sync.WaitGroup).Wait": true, "(*sync.WaitGroup).Add": true, "(*sync.WaitGroup).Done": true, "(*sync.Once).Do": true,
 	"(*sync/atomic.Value).Load": true, "(*sync/atomic.Value).Store": true,
 }
 
@@ -117,7 +123,7 @@ func isSyncFunc(full string) bool {
 var timeNames = map[string]bool{"Now": true, "Since": true, "Until": true, "Sleep": true, "AfterFunc": true, "NewTimer": true, "Timer": true}
 
 // instrumentPackage writes instrumented copies of the package's non-test, non-harness files.
-func instrumentPackage(l *Loaded, repoDir, relDir, outDir string, overlay map[string]string) error {
+func instrumentPackage(l *Loaded, repoDir, relDir, outDir string, overlay map[string]string, harness map[string][]byte) error {
 	if err := os.MkdirAll(outDir, 0o755); err != nil {
 		return err
 	}
@@ -133,12 +139,23 @@ func instrumentPackage(l *Loaded, repoDir, relDir, outDir string, overlay map[st
 	for i, f := range pkg.Syntax {
 		name := pkg.CompiledGoFiles[i]
 		base := filepath.Base(name)
-		if strings.HasPrefix(base, "zz_verif_") || strings.HasSuffix(base, "_test.go") {
+		if strings.HasSuffix(base, "_test.go") || strings.HasPrefix(base, "zz_verif_rt") {
 			continue
 		}
-		src, err := os.ReadFile(name)
-		if err != nil {
-			return err
+		var src []byte
+		if strings.HasPrefix(base, "zz_verif_") {
+			// harness files: goroutine bodies written in the harness get the same scheduling
+			// points as the code under test
+			src = harness[base]
+			if src == nil {
+				continue
+			}
+		} else {
+			var err error
+			src, err = os.ReadFile(name)
+			if err != nil {
+				return err
+			}
 		}
 		edits := instrumentFile(pkg, f, src)
 		if len(edits) == 0 {
@@ -317,6 +334,21 @@ func instrumentNode(n ast.Node, point func(), info *types.Info, edits *[]edit, o
 			}
 			if isSyncFunc(full) || full == "time.Sleep" {
 				point()
+			}
+		}
+	case *ast.DeferStmt:
+		// a deferred synchronisation call is a scheduling point when it runs, not when it is registered
+		if sel, ok := x.Call.Fun.(*ast.SelectorExpr); ok {
+			var full string
+			if s, ok := info.Selections[sel]; ok {
+				if fn, ok := s.Obj().(*types.Func); ok {
+					full = fn.FullName()
+				}
+			}
+			if isSyncFunc(full) {
+				*edits = append(*edits, edit{off: off(x.Call.Pos()), end: off(x.Call.Pos()), text: "func() { zzvsched.Point(); "})
+				*edits = append(*edits, edit{off: off(x.Call.End()), end: off(x.Call.End()), text: " }()"})
+				return false
 			}
 		}
 	case *ast.GoStmt:
